@@ -43,6 +43,12 @@ MERGE_TWINS = [
      ("or", ("parse", 'platform_release == "5.10"'), ("parse", 'platform_release < "5.10"'))),
     (("or", ("and", ("parse", 'python_full_version >= "3.8.0"'), ("parse", 'python_full_version < "3.9"')), ("parse", 'python_full_version < "3.8.0"')),
      ("or", ("parse", 'python_full_version ~= "3.8.0"'), ("parse", 'python_full_version < "3.8.0"'))),
+    # the same (operator, literal) on two different version-like variables: `python_version in "3.8"` is the series 3.8.*, `python_full_version in "3.8"`
+    # the single version 3.8.0 - state keyed by operator and literal alone would leak from one to the other
+    (("and", ("parse", 'python_version in "3.8"'), ("parse", 'python_version >= "3.7"')), ("and", ("parse", 'python_full_version in "3.8"'), ("parse", 'python_full_version >= "3.8.1"'))),
+    (("or", ("parse", 'python_version not in "3.8"'), ("parse", 'python_version >= "3.9"')), ("or", ("parse", 'platform_release not in "3.8"'), ("parse", 'platform_release >= "3.8.1"'))),
+    (("and", ("parse", 'python_version == "3.8"'), ("parse", 'python_version >= "3.7"')), ("and", ("parse", 'python_full_version == "3.8"'), ("parse", 'python_full_version >= "3.7"'))),
+    (("and", ("parse", 'os_name == "3.8"'), ("parse", 'os_name != "3.9"')), ("and", ("parse", 'platform_release == "3.8"'), ("parse", 'platform_release != "3.9"'))),
     (("and", ("parse", 'os_name == "a" or os_name == "b"'), ("parse", 'python_version >= "3.8" or sys_platform == "y"')),
      ("and", ("parse", 'os_name == "b" or os_name == "a"'), ("parse", 'python_version >= "3.8" or sys_platform == "y"'))),
     (("or", ("parse", 'os_name != "a" and os_name != "b"'), ("parse", 'python_version >= "3.8" and sys_platform == "y"')),
@@ -54,9 +60,32 @@ TWINS = [('python_version >= "3.8"', '"3.8" <= python_version'), ('python_versio
          ('python_version == "3.8"', 'python_version == "3.8.*"'), ('extra == "a"', '"a" == extra'), ('extra == "A_b"', 'extra == "a-b"')]
 
 
-def clear():
-    """clears every functools cache found in the library's modules (not a fixed list: a newly memoised function is cleared too)"""
+def _module_state():
+    """module-level and class-level mutable containers (dict / list / set) of the library: a hand-written memo or accumulator lives in one of these"""
     import sys
+    out = {}
+    for name, mod in list(sys.modules.items()):
+        if name == "dep_logic" or name.startswith("dep_logic."):
+            owners = [(name, mod)] + [(f"{name}.{k}", v) for k, v in list(vars(mod).items()) if isinstance(v, type) and getattr(v, "__module__", "") == name]
+            for oname, owner in owners:
+                for attr, obj in list(vars(owner).items()):
+                    if type(obj) in (dict, list, set) and not attr.startswith("__"):
+                        out[(oname, attr)] = obj
+    return out
+
+
+_PRISTINE = {k: (type(v)(v)) for k, v in _module_state().items()}       # taken when this suite is imported, before any library operation
+
+
+def clear():
+    """clears every functools cache found in the library's modules (not a fixed list: a newly memoised function is cleared too) and puts every
+    module- / class-level container back to its content at import time (a hand-written memo is 'cold' again)"""
+    import sys
+    for k, obj in _module_state().items():
+        if k in _PRISTINE and obj != _PRISTINE[k]:
+            snap = _PRISTINE[k]
+            obj.clear()
+            (obj.update if isinstance(obj, (dict, set)) else obj.extend)(snap)
     for name, mod in list(sys.modules.items()):
         if name == "dep_logic" or name.startswith("dep_logic."):
             for obj in list(vars(mod).values()):
